@@ -138,19 +138,13 @@ def run(ctx):
         # ---- R4.10 (F-U): once the status has been set to a failure inside the success region, the target is out of reach
         ctx.rule("R4.10", "no mutation of the target (rename over it, unlink of it) is reachable from a point where the job's status has been set to a failure: a step of the success path that fails (e.g. the copy of stdout into the temp file) must not fall through into `no output: remove the target`")
         rvar = common.int_root(R, rvl) if rvl is not None else None
-        fails_at = []
-        if rvar is not None:
-            for i in sorted(rba.live):
-                for s_ in R.blocks[i]["stmts"]:
-                    if s_["s"] == "assign" and s_["place"]["l"] == rvar and not s_["place"]["p"] and s_["rv"]["k"] == "use":
-                        c_ = const_int(s_["rv"]["op"])
-                        if c_ is not None and c_ != 0:
-                            fails_at.append(i)
+        fam = common.status_family(R, rvar) if rvar is not None else set()
+        fails_at = common.status_failure_blocks(R, fam, 0) if fam else {}
         muts = sorted(set(ren) | set(unl_t))
-        ctx.floor("R4.10", "failure assignments to the status in record_new_state", len(set(fails_at)), 1)
-        for a in sorted(set(fails_at)):
-            pth = common.int_status_path(R, rvar, 0, a, muts) if muts else None
-            ctx.ob("R4.10", "%s|status:=%s|target-untouched-afterwards" % (R.key, "+".join(sorted({str(const_int(s_["rv"]["op"])) for s_ in R.blocks[a]["stmts"] if s_["s"] == "assign" and s_["place"]["l"] == rvar and s_["rv"]["k"] == "use" and const_int(s_["rv"]["op"]) is not None}))),
+        ctx.floor("R4.10", "failure assignments to the status in record_new_state", len(fails_at), 1)
+        for a in sorted(fails_at):
+            pth = common.status_path(R, fam, 0, a, muts) if muts else None
+            ctx.ob("R4.10", "%s|status:=%s|target-untouched-afterwards" % (R.key, "+".join(sorted(str(c_) for c_ in fails_at[a]))),
                    pth is None, where=ctx.where(R, a),
                    detail="after this failure is decided neither the rename nor the unlink of the target can execute" if pth is None else
                    "a failed build still replaces or deletes the previous target: status set to a failure at %s, target mutated at %s" % (R.line(a), R.line(pth[-1])), witness=pth)
